@@ -47,13 +47,13 @@ Definition al_comps_cmp (v w : alpine) : outcome comparison :=
 (* compareLetters = strings.Compare (the two special cases agree with it) *)
 Definition al_letter_cmp (v w : alpine) : comparison := bytes_cmp (al_letter v) (al_letter w).
 
-(* alpineSuffix.Cmp; fetchSuffix pads with {weight 5, number 0} *)
+(* alpineSuffix.Cmp; fetchSuffix pads with {weight 4 (= no suffix), number 0} (after fix 3b060d98) *)
 Definition asuffix_cmp (a b : asuffix) : outcome comparison :=
   match Z.compare (as_weight a) (as_weight b) with
   | Eq => ocmp (as_number a) (as_number b)
   | c => Ok c
   end.
-Definition asuffix_pad : asuffix := {| as_weight := 5%Z; as_number := Some 0%Z |}.
+Definition asuffix_pad : asuffix := {| as_weight := 4%Z; as_number := Some 0%Z |}.
 
 Definition al_suffixes_cmp (v w : alpine) : outcome comparison :=
   lexpadO asuffix_pad asuffix_cmp (al_suffixes v) (al_suffixes w).
